@@ -775,7 +775,7 @@ bool Sys::apply_wait(const Letter &l)
 static const int SPLIT = 2;
 static int closure_depth(Tier t) { return t == Quick ? 16 : 24; }
 static int large_depth(Tier t) { return t == Quick ? 4 : 6; }
-static int wait_depth(Tier t, unsigned prefill) { return t == Quick ? 6 : (prefill ? 7 : 9); }
+static int wait_depth(Tier t, unsigned prefill) { return t == Quick ? 6 : (prefill ? 6 : 8); }
 
 // distinct canonical states first reached after exactly SPLIT letters of the large alphabet (computed in a forked child:
 // a fault in the code under test must surface as a violation of the root job, not break the job listing)
